@@ -18,8 +18,9 @@ package wgen
 //       placed after a lead, before a trail, between both, in array<I,2>, in a member array and in a
 //       runtime-sized tail; plus @align(32) / @size(+16) on the struct-typed member
 //   XS  spellings: 3-member structs with the attribute(s) on the member at position 0/1/2, the
-//       attributed member over 7 types, every @align / @size value and the align+size pair in both
-//       orders x every spelling of XSpellings()
+//       attributed member over 7 types, every @align / @size value (the bound's values plus 4096 and
+//       65536 for @align, +252 and +65532 for @size) and the align+size pair in both orders x every
+//       spelling of XSpellings(); @size on a member of an inner struct x every spelling
 //
 // Each shape is presented in up to three placements ("modes"): storage (one read-only and one
 // read_write global; read_write only when the type holds atomics), uniform (only when WGSL permits the
@@ -293,10 +294,10 @@ func xShapes(thorough bool) []xShape {
 			for _, tg := range targets {
 				ts := []*XT{XS("f32"), XS("f32"), XS("f32")}
 				ts[pos] = tg
-				for _, v := range xAligns(tg) {
+				for _, v := range append(xAligns(tg), 4096, 65536) {
 					add("XS", xMk("SX", ts, xAttr{i: pos, align: v, dsize: -1, asp: sp}))
 				}
-				for _, d := range []int{0, 4, 16} {
+				for _, d := range []int{0, 4, 16, 252, 65532} {
 					add("XS", xMk("SX", ts, xAttr{i: pos, dsize: d, ssp: sp}))
 				}
 				// both attributes on one member, in both orders, and on two different members
@@ -304,6 +305,14 @@ func xShapes(thorough bool) []xShape {
 				add("XS", xMk("SX", ts, xAttr{i: pos, align: 32, dsize: 4, asp: sp, ssp: sp, szFrst: true}))
 				add("XS", xMk("SX", ts, xAttr{i: pos, align: 16, dsize: -1, asp: sp}, xAttr{i: (pos + 1) % 3, dsize: 16, ssp: sp}))
 			}
+		}
+	}
+	// XS: the spelled attribute on a member of an inner struct (as a member and as an array element)
+	for _, sp := range XSpellings() {
+		for ipos := 0; ipos < 2; ipos++ {
+			in := xMk("IX", []*XT{XS("f32"), XS("f16")}, xAttr{i: ipos, dsize: 4, ssp: sp})
+			add("XS", xMk("SX", []*XT{XS("f32"), in, XS("f32")}))
+			add("XS", XArr(in, 2))
 		}
 	}
 	return out
@@ -349,8 +358,8 @@ func xFam(thorough bool) *xFamily {
 	return f
 }
 
-// F3xAt returns program i of the family (same index space as F3x(thorough).At).
-func F3xAt(thorough bool, i int) *XCase {
+// F3xShapeAt returns program i without its text.
+func F3xShapeAt(thorough bool, i int) *XCase {
 	f := xFam(thorough)
 	e := f.ents[i]
 	sh := f.shapes[e.sh]
@@ -372,6 +381,12 @@ func F3xAt(thorough bool, i int) *XCase {
 		}
 	}
 	c.Sig = "F3x/" + sh.sub + "/" + e.mode + "/" + sh.t.Sig()
+	return c
+}
+
+// F3xAt returns program i of the family (same index space as F3x(thorough).At).
+func F3xAt(thorough bool, i int) *XCase {
+	c := F3xShapeAt(thorough, i)
 	c.Src = XPrint(c.Globals)
 	return c
 }
